@@ -97,6 +97,31 @@ def new_table_words():
     return [w for w in words if w not in ('"', "(", ")", ",", "[", "]")][:24]
 
 
+class TooLong(BaseException):
+    """a call into the library under test is still running after its time limit"""
+
+
+def limited(f, seconds=10.0):
+    """run f() in this process; a call that is still running after `seconds` is interrupted (pure-Python loops only: a
+    regular expression that backtracks for ever does not look at signals).  The timer keeps firing, so that an `except:`
+    inside the library cannot swallow the interruption for good.  Limits nest: an outer limit keeps its own deadline."""
+    import signal
+
+    def onalarm(_sig, _frm):
+        raise TooLong()
+    t0 = time.time()
+    outer_left, outer_every = signal.getitimer(signal.ITIMER_REAL)
+    old = signal.signal(signal.SIGALRM, onalarm)
+    signal.setitimer(signal.ITIMER_REAL, seconds if not outer_left else min(seconds, outer_left), 0.5)
+    try:
+        return f()
+    finally:
+        signal.setitimer(signal.ITIMER_REAL, 0)
+        signal.signal(signal.SIGALRM, old)
+        if outer_left:
+            signal.setitimer(signal.ITIMER_REAL, max(0.05, outer_left - (time.time() - t0)), outer_every)
+
+
 def new_comparator_keys():
     """comparator texts that the regenerated `COMPARATORS` table has and the pinned one has not, with the operator each
     names: [(text, operator name)].  Used only to aim the search when that table changed."""
